@@ -14,7 +14,7 @@ def run(ctx):
     ctx.floor("R-TF.dispatchers", 40)
     # byte comparison kernels: the order of two bytes is never decided by a signed lane comparison
     simdsign.run(ctx, fx)
-    ctx.floor("R-SIGNED.kernels", 12)
+    ctx.floor("R-SIGNED.kernels", 8)
     return dict(
         level_note="decides the dispatch clause of C14 (feature-gated kernels are entered only under an implying "
                    "runtime check; a portable path exists) and one necessary condition of the compare clause (no unbiased "
